@@ -2,7 +2,7 @@
 # usage: harmless_sweep.sh [H<i>-<j> ...]   applies every stored behaviour-preserving refactoring (harmless/<id>/patch.diff) to /repo in turn,
 # runs ALL quick checks, reverts, and writes /verif/harmless/RESULTS.tsv (refactoring, property, outcome). A VIOLATION here is, by construction,
 # a tie that a harmless rewrite breaks (expected to end in no-failing-input-found); a failing input would be a false alarm of an oracle.
-cd /repo && git diff --quiet || { echo "/repo not clean"; exit 2; }
+cd /repo && [ -z "$(git status --porcelain)" ] || { echo "/repo not clean"; exit 2; }
 out=/verif/harmless/RESULTS.tsv; : > $out.tmp
 hs=${@:-$(ls /verif/harmless | grep -E '^H[0-9]+-[0-9]+$' | sort -V)}
 for h in $hs; do
@@ -18,7 +18,7 @@ for h in $hs; do
     [ "$o" = quiet ] || { mkdir -p /verif/harmless/$h/replays; rp=$(echo "$r" | sed -n 's/.*replay=\([^ ]*\).*/\1/p'); [ -n "$rp" ] && cp /verif/$rp /verif/harmless/$h/replays/$c.txt 2>/dev/null; }
     echo -e "$h\t$c\t$o" | tee -a $out.tmp
   done
-  git -C /repo checkout -- .
+  git -C /repo checkout -- . && git -C /repo clean -fdq src static-metric proto
 done
 ( [ -f $out ] && grep -v -F -f <(cut -f1 $out.tmp | sort -u | sed "s/$/\t/") $out; cat $out.tmp ) | sort -V > $out.new; mv $out.new $out; rm -f $out.tmp
 for i in $(seq -w 1 20); do (cd /verif && ./check C$i quick >/dev/null 2>&1); done
